@@ -49,6 +49,31 @@ class TableJob:
         return r
 
 
+class PairJob:
+    """One TLC exploration of MCPair.tla (two maps); rows = set operations between two views."""
+    replay_cmd = "replay-pairs"
+
+    def __init__(self, name, acts_a, acts_b, pair_acts, max_a, max_b, emit=None, targets=None, hosts='{"0"}',
+                 workers=8, timeout=1800, keylen=2, base="<<>>", vals_a="{1}", vals_b="{2}"):
+        self.name = name
+        self.consts = dict(KeyLen=str(keylen), Base=base, Hosts=hosts, ValsA=vals_a, ValsB=vals_b, ActsA=tset(acts_a),
+                           ActsB=tset(acts_b), PairActs=tset(pair_acts), MaxCountA=str(max_a), MaxCountB=str(max_b),
+                           EmitActs=tset(pair_acts if emit is None else emit))
+        self.targets = targets or [("u32", "map-map", "plain")]
+        self.workers, self.timeout = workers, timeout
+        self.inv = ["InvWF", "InvRefines", "EmitState"]
+        self.props = ["PropPair"]
+
+    def run_tlc(self):
+        r = vlib.tlc_run(self.name, "MCPair", self.consts, inv=self.inv, prop=self.props, view="View",
+                         constraint="Bound", action_constraint="Emit", workers=self.workers, timeout=self.timeout)
+        if r.get("timeout"):
+            raise ToolError(f"TLC timed out on {self.name}")
+        if not r["ok"]:
+            raise ToolError(f"the specification itself fails in configuration {self.name}: {r.get('error')} (see {r['log']})")
+        return r
+
+
 def targets(types, colls=("map",), ctxs=("plain",)):
     return [(t, c, x) for t in types for c in colls for x in ctxs]
 
@@ -88,6 +113,24 @@ def plan(prop, tier):
     if prop == "C13":
         w = ["GetMut", "LpmMut", "IterMut", "ValuesMut", "ChildrenMut", "ViewValueMut", "ViewIterMut"]
         return [TableJob("c13_u2", core + w, w, vals="{1,2}", maxcount=3 if q else 4, targets=targets(types))]
+    if prop in ("C05", "C06", "C07", "C08", "C19"):
+        IR, IRK = ["Insert", "Remove"], ["Insert", "Remove", "RemoveKeepTree"]
+        ops = {"C05": ["Union", "UnionMut"], "C06": ["Inter", "InterMut"], "C07": ["Diff", "DiffMut", "CovDiff", "CovDiffMut"],
+               "C08": ["Union", "Diff", "DiffMut"], "C19": ["Eq"]}[prop]
+        ptypes = ["u32", "Ipv6Net"] if q else ["u8", "u32", "u128", "Ipv4Net", "Ipv6Net", "Ipv4Cidr"]
+        pt = [(t, c, "plain") for t in ptypes for c in (["map-map"] if q else ["map-map", "map-str"])]
+        pt += [("u32", c, "plain") for c in ("map-set", "set-map", "set-set")]
+        n = 2 if q else 3
+        if prop == "C19":
+            mm = [(t, "map-map", "plain") for t in ptypes]
+            ss = [(t, "set-set", "plain") for t in (["u32"] if q else ptypes)]
+            return [PairJob("c19_cc", IR, IR, ops, 2, 2, targets=mm, vals_a="{1,2}", vals_b="{1,2}"),
+                    PairJob("c19_lc", IRK, IR, ops, n, 1 if q else 2, targets=mm, vals_a="{1,2}", vals_b="{1,2}"),
+                    PairJob("c19_cl", IR, IRK, ops, 1 if q else 2, n, targets=mm, vals_a="{1,2}", vals_b="{1,2}"),
+                    PairJob("c19_sets", IRK, IR, ops, 2, 2 if q else 3, targets=ss, vals_a="{1}", vals_b="{1}")]
+        return [PairJob(prop.lower() + "_cc", IR, IR, ops, 3, 3, targets=pt),
+                PairJob(prop.lower() + "_lc", IRK, IR, ops, n, 1 if q else 2, targets=pt),
+                PairJob(prop.lower() + "_cl", IR, IRK, ops, 1 if q else 2, n, targets=pt)]
     if prop == "C15":
         return [TableJob("c15_u2", MUT, MUT, targets=both)]
     if prop == "C16":
@@ -95,7 +138,8 @@ def plan(prop, tier):
     raise ToolError(f"no plan for {prop}")
 
 
-LEVEL = {p: "model_checking" for p in ["C01", "C02", "C03", "C04", "C09", "C10", "C11", "C12", "C13", "C15", "C16"]}
+LEVEL = {p: "model_checking" for p in ["C01", "C02", "C03", "C04", "C05", "C06", "C07", "C08", "C09", "C10", "C11", "C12",
+                                       "C13", "C15", "C16", "C19"]}
 
 
 def run_check(prop, tier):
@@ -114,7 +158,8 @@ def run_check(prop, tier):
         futs = []
         for j, r in zip(jobs, tlc_results):
             for (t, c, x) in j.targets:
-                futs.append(ex.submit(vlib.replay_rows, binpath, r["rows_file"], t, c, x))
+                futs.append(ex.submit(vlib.replay_rows, binpath, r["rows_file"], t, c, x,
+                                      cmdname=getattr(j, "replay_cmd", "replay")))
         for f in futs:
             reports.append(f.result())
     for r in tlc_results:
